@@ -21,7 +21,7 @@ RULE = (
     "segment >= 2 steps with a stimulus that is non-zero in each; distinct = hash(structure, split, layouts)."
 )
 ASSUMPTIONS = [
-    "float64, CPU; tolerance 1e-10*max(1,|x|) (same arithmetic, different call structure)",
+    "float64, CPU; tolerance 1e-10*max(1,|x|) between compiled runs (same arithmetic, different call structure); eager manual stepping vs the compiled scan: (1e-9*max|x| + 1e-8)*(k+1) at column k (rounding amplified by the secant conductance step)",
     "stimuli are supplied with data_stimulate per segment (a stored stimulus always restarts at sample 0)",
     "in 60% of the cases an initial state (v or a gate) is trainable or data_set and passed to every call; the continued run must "
     "start from the returned states, not from the trainable value (integrate docstring: all_states overrides trainable initial states)",
@@ -250,9 +250,13 @@ def judge(spec, tier="quick"):
         out.violate("raises", f"manual stepping with build_init_and_step_fn raised {err.short()}", etype=err.etype, frame=err.frame)
         return out
     out.evals += 1
-    if not np.allclose(man, full, rtol=0, atol=tol):
-        k = int(np.argmax((np.abs(man - full) > tol).any(axis=0)))
-        out.violate("manual-stepping", f"manual stepping differs from integrate, first at column {k}: max diff {np.max(np.abs(man - full)):.3e}")
+    # the manual loop runs step_fn eagerly, integrate runs it inside a compiled scan: the two programs round
+    # differently, and the library's secant conductance (i(v+d)-i(v))/d amplifies that by 1/d (d = 1e-3 today;
+    # 8.6e-9 mV at column 1 was measured with d = 1e-4). Same bound as in C01, growing linearly with the step count.
+    tol_eager = (1e-9 * sc + 1e-8) * (1.0 + np.arange(full.shape[1]))[None, :]
+    if man.shape != full.shape or not (np.abs(man - full) <= tol_eager).all():
+        k = int(np.argmax((np.abs(man - full) > tol_eager).any(axis=0))) if man.shape == full.shape else -1
+        out.violate("manual-stepping", f"manual stepping differs from integrate, first at column {k}: max diff {float(np.max(np.abs(man - full))) if man.shape == full.shape else -1.0:.3e} (shapes {man.shape} / {full.shape})")
     return out
 
 
